@@ -72,9 +72,60 @@ def sha(s):
 
 # ---------------------------------------------------------------- rewrites
 
+ACTIVE_RULES = set()
+
+R10_RE = re.compile(
+    r"let\s+mut\s+encoder\s*=\s*PostcardEncoder::new\((?P<arg>[^;]*?)\);\s*"
+    r"encoder\s*\.encode\((?P<key>[^,;]*?),\s*&self\.plugin\)\s*\.expect\((?P<msg>\"[^\"]*\")\);")
+
+
+def apply_r10(text, log, ctx):
+    """R10: the two-statement idiom `let mut encoder = PostcardEncoder::new(BUF); encoder.encode(KEY, &self.plugin).expect(MSG);`
+    becomes one call of the opaque, contracted `verif_postcard_encode(KEY, BUF, &self.plugin);` (C12's Encode contract)."""
+    def rep(m):
+        arg = m.group("arg").strip()
+        arg2 = re.sub(r"^&\s*mut\s*\*\s*", "", arg)
+        new = f"verif_postcard_encode({m.group('key').strip()}, {arg2}, &self.plugin);"
+        log.append({"rule": "R10", "in": ctx, "before": re.sub(r"\s+", " ", m.group(0)), "after": new})
+        return new
+    return R10_RE.sub(rep, text)
+
+
+R11A_RE = re.compile(r"\b(u16|u32|u64|u128|usize|i16|i32|i64|i128|isize)::from_le_bytes\(")
+R11B_RE = re.compile(r"\.to_le_bytes\(\)")
+R12_RE = re.compile(r"(?P<buf>\b[A-Za-z_][A-Za-z_0-9]*)\s*\[(?P<a>[^\]\[]*?)\.\.(?P<b>[^\]\[]*?)\]\s*\.copy_from_slice\((?P<src>[^;]*)\);")
+
+
+def apply_r11_r12(text, log, ctx):
+    """R11: `uN::from_le_bytes(X)` -> `verif_uN_from_le_bytes(X)`, `E.to_le_bytes()` -> `E.verif_to_le_bytes()`
+    (the std signatures carry an unevaluated const generic that assume_specification cannot name);
+    R12: `BUF[A..B].copy_from_slice(SRC);` -> `verif_copy_into(BUF, A, B, SRC);` (IndexMut<Range> on Vec has no vstd spec).
+    Both targets are opaque wrappers with the std function's contract (trusted)."""
+    def r11a(m):
+        log.append({"rule": "R11", "in": ctx, "before": m.group(0), "after": f"verif_{m.group(1)}_from_le_bytes("})
+        return f"verif_{m.group(1)}_from_le_bytes("
+    text = R11A_RE.sub(r11a, text)
+
+    def r11b(m):
+        log.append({"rule": "R11", "in": ctx, "before": ".to_le_bytes()", "after": ".verif_to_le_bytes()"})
+        return ".verif_to_le_bytes()"
+    text = R11B_RE.sub(r11b, text)
+
+    def r12(m):
+        new = f"verif_copy_into({m.group('buf')}, {m.group('a').strip()}, {m.group('b').strip()}, {m.group('src').strip()});"
+        log.append({"rule": "R12", "in": ctx, "before": re.sub(r"\s+", " ", m.group(0)), "after": new})
+        return new
+    text = R12_RE.sub(r12, text)
+    return text
+
+
 def apply_rewrites(text, log, ctx):
     """The declared mechanical rewrites R1,R2/R3,R6,R9 on a piece of extracted source text.
     Works on the token stream of `text`; returns new text."""
+    if "R10" in ACTIVE_RULES:
+        text = apply_r10(text, log, ctx)
+    if "R11" in ACTIVE_RULES:
+        text = apply_r11_r12(text, log, ctx)
     toks = lex(text)
     ct = code_tokens(toks)
     edits = []  # (start,end,replacement,rule)
@@ -411,6 +462,7 @@ class Unit:
         self.dropped = []
         self.line_map = []    # (first_line, last_line, label) in generated file
         self.out_lines = []
+        self.rules = set()    # optional rewrite rules switched on by `//@ rule <name>`
 
     def emit(self, text, label=None):
         lines = text.split("\n")
@@ -422,6 +474,21 @@ class Unit:
     def generate(self):
         with open(self.template_path) as f:
             tl = f.read().split("\n")
+        # `//@ include <file>` : textual inclusion of a shared specification file (relative to specs/)
+        exp = []
+        for line in tl:
+            st = line.strip()
+            if st.startswith("//@ include "):
+                inc = os.path.join(os.path.dirname(self.template_path), st[len("//@ include "):].strip())
+                with open(inc) as f2:
+                    exp.extend(f2.read().split("\n"))
+            elif st.startswith("//@ rule "):
+                self.rules.add(st[len("//@ rule "):].strip())
+            else:
+                exp.append(line)
+        tl = exp
+        global ACTIVE_RULES
+        ACTIVE_RULES = set(self.rules)
         i = 0
         n = len(tl)
         while i < n:
